@@ -285,6 +285,12 @@ impl Scenario for EcdsaNet {
                     let drawn = verif_hooks::uninstall_entropy().map(|d| d.0).unwrap_or_default();
                     let sig = match res {
                         Ok(Ok(s)) => s,
+                        Ok(Err(_)) if raw.as_ref().map(|d| d.iter().all(|b| *b == 0) || d.as_slice() >= hex::decode(rf::N_HEX).unwrap().as_slice()).unwrap_or(false) => {
+                            // a caller-chosen digest of zero or not below the group order: refusing it returns no signature, which the
+                            // statement allows ("every signature returned ...")
+                            ctx.probe("sign_refused_degenerate_digest");
+                            continue;
+                        }
                         Ok(Err(e)) => {
                             if ctx.violate("reject", format!("sign-failed:{}", entry), format!("signing ({}) with a valid key failed: {}", entry, e)) {
                                 return;
